@@ -289,7 +289,19 @@ impl Mon {
             is_cancun,
         }
     }
-    fn v(&mut self, prop: &'static str, sig: impl Into<String>, what: impl Into<String>) {
+    /// ground truth from hook H1: `dispatched` instructions really ran during this transaction
+    pub fn check_step_ground_truth(&mut self, dispatched: u64, steps_before: u64, step_ends_before: u64) {
+        let s = self.n_step - steps_before;
+        let e = self.n_step_end - step_ends_before;
+        self.counters.entry("instructions_dispatched(H1 counter)".into()).and_modify(|c| *c += dispatched).or_insert(dispatched);
+        if s != dispatched {
+            let kind = if s < dispatched { "instructions-without-step-notification" } else { "more-step-notifications-than-instructions" };
+            self.v("C29", format!("C29/{kind}"), format!("{dispatched} instructions were dispatched, {s} step and {e} step_end notifications delivered"));
+        } else if e != dispatched {
+            self.v("C29", "C29/step-end-count-differs-from-instructions", format!("{dispatched} instructions were dispatched, {e} step_end notifications delivered"));
+        }
+    }
+    pub fn v(&mut self, prop: &'static str, sig: impl Into<String>, what: impl Into<String>) {
         if self.violations.len() < 40 {
             self.violations.push(MonViolation { prop, sig: sig.into(), what: what.into() });
         }
